@@ -92,6 +92,7 @@ class ContractDB:
         self.all_contracts: dict[str, Contract] = {}
         self.specs: dict[str, _SpecFunc] = {}
         self.aliases: dict[str, str] = {}
+        self.type_aliases: dict[str, str] = {}
         self.lemmas: dict[str, tuple] = {}
         self.files: list[str] = []
         self.module_asts: dict[str, ast.Module] = {}
@@ -122,6 +123,8 @@ class ContractDB:
                         self.types.ordered_dict_fields.add((owner, f))
                 elif n == "class_aliases":
                     self.aliases.update(ast.literal_eval(st.value))
+                elif n == "type_aliases":
+                    self.type_aliases.update(ast.literal_eval(st.value))
             elif isinstance(st, ast.FunctionDef):
                 decos = [ast.unparse(d) for d in st.decorator_list]
                 if any(d.startswith("spec") for d in decos):
@@ -394,7 +397,11 @@ class ContractDB:
             if con.raises is not None:
                 nfr = self.contract_frame(it, con, self.fn_env(con.raises, env), fr)
                 for exc_name, cond in self.raise_clauses(it, con, nfr):
-                    it.oblige_pure(f"purecall:{fi.qname}/no-raise:{exc_name}", z3.Not(cond), site=("praise", fi.qname, exc_name))
+                    rc = getattr(it, "raise_collect", None)
+                    if rc is not None and len(it.pure_ctx) == 1:
+                        rc.append((exc_name, cond, con))
+                    else:
+                        it.oblige_pure(f"purecall:{fi.qname}/no-raise:{exc_name}", z3.Not(cond), site=("praise", fi.qname, exc_name))
         rty = self.return_type(it, con, fi)
         if rty is None or rty is TNone:
             return NONE
@@ -446,6 +453,34 @@ class ContractDB:
         seen: set[str] = set()
         from .loops import assigned_in
 
+        def static_ty(e):
+            """Static type of a receiver expression built from locals, fields and subscripts."""
+            try:
+                if isinstance(e, ast.Name):
+                    v = fr.env.get(e.id)
+                    return it.val_ty(v) if v is not None else None
+                if isinstance(e, ast.Attribute):
+                    b = static_ty(e.value)
+                    if isinstance(b, TOpt):
+                        b = b.inner
+                    if isinstance(b, TObj):
+                        owner = it.field_owner(b.cls, e.attr)
+                        return it.field_ty(owner, e.attr) if owner else None
+                    if isinstance(b, TRec):
+                        return b.fty(e.attr)
+                    return None
+                if isinstance(e, ast.Subscript):
+                    b = static_ty(e.value)
+                    from .tys import TSeq as _S, TDict as _D
+                    if isinstance(b, _S):
+                        return b.elem
+                    if isinstance(b, _D):
+                        return b.v
+                    return None
+            except Exception:
+                return None
+            return None
+
         def visit_fn(fi: FuncInfo, recv_cls=None):
             if fi.qname in seen:
                 return
@@ -481,7 +516,18 @@ class ContractDB:
                     if init is not None:
                         visit_fn(init)
                 return
-            # method call: every method of that name in the world (closed world over-approximation)
+            # method call: use the static type of the receiver where it is known
+            rty = static_ty(f.value) if module == fr.module else None
+            from .tys import TSeq as _S, TDict as _D, TSet as _T, TStr as _Str, TRec as _R, TTuple as _Tu
+            if isinstance(rty, (_S, _D, _T, _Tu)) or rty is _Str:
+                return  # builtin container method: its effect is the mutation of the receiver (handled syntactically)
+            if isinstance(rty, (TObj, _R)):
+                for sub in self.w.subclasses(rty.cls):
+                    m = self.w.find_method(sub, name)
+                    if m is not None:
+                        visit_fn(m, sub)
+                return
+            # unknown receiver: every method of that name in the world (closed world over-approximation)
             for mi in self.w.modules.values():
                 for ci in mi.classes.values():
                     if name in ci.methods:
